@@ -158,31 +158,78 @@ def optional_discipline(prog: Program, rep: Report) -> None:
 
 def one_path(prog: Program, rep: Report) -> None:
     rule = "R18.4"
-    fi = prog.func("configure.configure")
-    loads = {}
+    from ..program import expand_locals, inline_helpers, lower_ifexp
+
+    fi0 = inline_helpers(prog, prog.func("configure.configure"))
+    node = ast.fix_missing_locations(ast.FunctionDef(name=fi0.node.name, args=fi0.node.args, body=lower_ifexp(fi0.node.body), decorator_list=[], returns=None, type_comment=None, lineno=fi0.node.lineno, col_offset=0))
+    fi = FuncInfo(fi0.module, fi0.qual, node, fi0.cls)
+
+    def X(e):
+        return unparse(expand_locals(e, fi.node))
+
+    # the parsed file of either format flows into the one variable that is normalised and returned
+    edges = {}
+    loaders = {"toml": set(), "yaml": set()}
     for n in walk_no_nested(fi.node):
-        if isinstance(n, (ast.Assign, ast.AnnAssign)):
+        if isinstance(n, (ast.Assign, ast.AnnAssign)) and n.value is not None:
             t = n.targets[0] if isinstance(n, ast.Assign) else n.target
-            if unparse(t) == "config" and n.value is not None:
-                loads[unparse(n.value)] = n
-    rep.check(rule, fi.qual, "TOML and YAML arms bind the same variable", any("tomli.load" in k for k in loads) and any("yaml.safe_load" in k for k in loads), what_bad=f"assignments to config: {list(loads)}", what_ok="config = tomli.load / yaml.safe_load", loc=fi.loc())
-    disp = [n for n in walk_no_nested(fi.node) if isinstance(n, ast.If) and unparse(n.test) == "filetype == 'toml'"]
-    rep.check(rule, fi.qual, "file type from the suffix; everything but .toml is YAML", len(disp) == 1 and bool(disp[0].orelse), what_bad="suffix dispatch changed", what_ok="toml / default yaml", loc=fi.loc())
+            if isinstance(t, ast.Name):
+                if isinstance(n.value, ast.Name):
+                    edges.setdefault(n.value.id, set()).add(t.id)
+                src = unparse(n.value)
+                if "tomli.load" in src or "tomllib.load" in src:
+                    loaders["toml"].add(t.id)
+                if "yaml.safe_load" in src:
+                    loaders["yaml"].add(t.id)
+
+    def reach(names):
+        seen = set(names)
+        todo = list(names)
+        while todo:
+            x = todo.pop()
+            for y in edges.get(x, ()):
+                if y not in seen:
+                    seen.add(y)
+                    todo.append(y)
+        return seen
+
+    rets = [n for n in walk_no_nested(fi.node) if isinstance(n, ast.Return)]
+    retname = unparse(rets[0].value) if len(rets) == 1 and rets[0].value is not None else None
+    rep.check(rule, fi.qual, "TOML and YAML arms bind the same variable", bool(loaders["toml"]) and bool(loaders["yaml"]) and retname in reach(loaders["toml"]) and retname in reach(loaders["yaml"]), what_bad=f"parsed TOML reaches {sorted(reach(loaders['toml']))}, parsed YAML {sorted(reach(loaders['yaml']))}; returned: {retname}", what_ok="both reach the returned configuration", loc=fi.loc())
+    disp = []
+    suffix_names = set()
+    grew = True
+    while grew:
+        grew = False
+        for n in walk_no_nested(fi.node):
+            if isinstance(n, ast.Assign) and isinstance(n.targets[0], ast.Name) and n.targets[0].id not in suffix_names:
+                v = unparse(n.value)
+                if ".suffix" in v or any(isinstance(x, ast.Name) and x.id in suffix_names for x in ast.walk(n.value)):
+                    suffix_names.add(n.targets[0].id)
+                    grew = True
+    for n in walk_no_nested(fi.node):
+        if isinstance(n, ast.If) and n.orelse:
+            b = unparse(ast.Module(body=n.body, type_ignores=[]))
+            o = unparse(ast.Module(body=n.orelse, type_ignores=[]))
+            t = X(n.test)
+            if "tomli.load" in b and "yaml.safe_load" in o and "yaml.safe_load" not in b and ("suffix" in t or any(isinstance(x, ast.Name) and x.id in suffix_names for x in ast.walk(n.test))) and "toml" in t and "yaml" not in t and "yml" not in t:
+                disp.append(n)
+    rep.check(rule, fi.qual, "file type from the suffix; everything but .toml is YAML", len(disp) == 1, what_bad="suffix dispatch changed", what_ok="toml / default yaml", loc=fi.loc())
     ver = [n for n in walk_no_nested(fi.node) if isinstance(n, ast.Assign) and unparse(n.targets[0]) == "version"]
     srcs = [unparse(n.value) for n in ver]
-    rep.check(rule, fi.qual, "version: explicit key, else inferred from the presence of time_control", "str(config.get('version', '0'))" in srcs and "'1' if 'time_control' in config else '2'" in srcs, what_bad=f"{srcs}", what_ok="explicit or inferred", loc=fi.loc())
+    inferred = [n for n in walk_no_nested(fi.node) if isinstance(n, ast.If) and unparse(n.test) == "'time_control' in config" and [unparse(x) for x in n.body] == ["version = '1'"] and [unparse(x) for x in n.orelse] == ["version = '2'"]]
+    rep.check(rule, fi.qual, "version: explicit key, else inferred from the presence of time_control", "str(config.get('version', '0'))" in srcs and len(inferred) == 1, what_bad=f"{srcs}", what_ok="explicit or inferred", loc=fi.loc())
     v2call = [n for n in walk_no_nested(fi.node) if isinstance(n, ast.Expr) and isinstance(n.value, ast.Call) and unparse(n.value.func) == "configure_v2" and [unparse(a) for a in n.value.args] == ["config"]]
     v1call = [n for n in walk_no_nested(fi.node) if isinstance(n, ast.Assign) and unparse(n.targets[0]) == "config" and unparse(n.value) == "configure_v1(config)"]
-    rets = [n for n in walk_no_nested(fi.node) if isinstance(n, ast.Return)]
-    rep.check(rule, fi.qual, "v2 normalised in place, v1 translated into the same variable, one return", len(v2call) == 1 and len(v1call) == 1 and len(rets) == 1 and unparse(rets[0].value) == "config", what_bad=f"v2 calls {len(v2call)}, v1 assignments {len(v1call)}, returns {[unparse(r.value) for r in rets]}", what_ok="return config", loc=fi.loc())
-    tests = [unparse(n.test) for n in walk_no_nested(fi.node) if isinstance(n, ast.If) and "version[0]" in unparse(n.test)]
+    rep.check(rule, fi.qual, "v2 normalised in place, v1 translated into the same variable, one return", len(v2call) == 1 and len(v1call) == 1 and len(rets) == 1 and retname == "config", what_bad=f"v2 calls {len(v2call)}, v1 assignments {len(v1call)}, returns {[unparse(r.value) for r in rets if r.value is not None]}", what_ok="return config", loc=fi.loc())
+    tests = [X(n.test) for n in walk_no_nested(fi.node) if isinstance(n, ast.If) and "version[0]" in X(n.test)]
     rep.check(rule, fi.qual, "version dispatch covers '2', '1' and stops otherwise", "version[0] == '2'" in tests and "version[0] == '1'" in tests, what_bad=f"{tests}", what_ok="2 / 1 / else stop", loc=fi.loc())
     v2 = cfg(prog, "configure_v2")
-    rets = [n for n in walk_no_nested(v2.node) if isinstance(n, ast.Return) and n.value is not None]
-    rep.check(rule, v2.qual, "configure_v2 works in place (returns nothing)", not rets, what_bad="the caller ignores a returned dict", what_ok="in place", loc=v2.loc())
+    rets2 = [n for n in walk_no_nested(v2.node) if isinstance(n, ast.Return) and n.value is not None]
+    rep.check(rule, v2.qual, "configure_v2 works in place (returns nothing)", not rets2, what_bad="the caller ignores a returned dict", what_ok="in place", loc=v2.loc())
     v1 = cfg(prog, "configure_v1")
-    rets = [n for n in walk_no_nested(v1.node) if isinstance(n, ast.Return)]
-    rep.check(rule, v1.qual, "configure_v1 returns the translated dict", len(rets) == 1 and unparse(rets[0].value) == "conf2", what_bad=f"{[unparse(r.value) for r in rets if r.value is not None]}", what_ok="conf2", loc=v1.loc())
+    outs = [o for o in v1_outcomes(prog, True) if o["status"] == "ok"]
+    rep.check(rule, v1.qual, "configure_v1 returns the translated dict", bool(outs) and all(isinstance(o["result"], dict) for o in outs), what_bad="configure_v1 does not return the translated dictionary on every path", what_ok="dict", loc=v1.loc())
 
 
 def v2_outcomes(prog: Program, present=(), absent=(), default_presence=True, none_paths=()):
